@@ -1,7 +1,7 @@
 (* C09 proofs, part 6: the recorded finding classes on their witnesses.  Each witness is a history
    as the real database answered it (the observations are those printed by harness/src/bin/c09.rs
    for the witness lines of known_findings.d/C09.json, re-run on every check).
-   - open classes (1, 2, 3, 4, 10, 15): the implementation model reproduces the history, the
+   - open classes (1, 2, 3, 4, 10, 15, 20): the implementation model reproduces the history, the
      reference refuses it, and the history is in the stated class: genuine failures of the property;
    - repaired classes (11, 12, 13, 14, 16, 17, 18, 19): the same witness lines, answered by the
      repaired database: the model reproduces the answers, the reference accepts them, and no open
@@ -62,6 +62,11 @@ Definition wit_19 : case :=
      (SDel TP None, HObs true [] []);
      (SIns TP [[(VInt 1)]], HObs true [[(VInt 1)]] []);
      (SIns TC [[(VInt 1); (VInt 1)]], HObs true [[(VInt 1)]] [[(VInt 1); (VInt 1)]])].
+Definition wit_20 : case :=
+  Hist (mkSch [(mkCol 1 false None None); (mkCol 2 false None None)] []) [(SIns TP [[(VInt 1); (VInt 1)]], HObs true [[(VInt 1); (VInt 1)]] []);
+     (SIns TP [[(VInt 2); (VInt 2)]], HObs true [[(VInt 1); (VInt 1)]; [(VInt 2); (VInt 2)]] []);
+     (SUpdE TP 1%nat (EArith AAdd (ECol 1) (ELit (VInt 1))) None, HObs false [[(VInt 1); (VInt 1)]; [(VInt 2); (VInt 2)]] []);
+     (SIns TP [[(VInt 3); (VInt 2)]], HObs false [[(VInt 1); (VInt 1)]; [(VInt 2); (VInt 2)]] [])].
 
 Definition refutes (k : Z) (c : case) : Prop := known_class c = k /\ model_agrees c = true /\ spec_ok c = false.
 Definition repaired (c : case) : Prop := known_class c = 0 /\ model_agrees c = true /\ spec_ok c = true.
@@ -77,6 +82,8 @@ Proof. vm_compute. repeat split. Qed.
 Lemma refuted_10 : refutes 10 wit_10.
 Proof. vm_compute. repeat split. Qed.
 Lemma refuted_15 : refutes 15 wit_15.
+Proof. vm_compute. repeat split. Qed.
+Lemma refuted_20 : refutes 20 wit_20.
 Proof. vm_compute. repeat split. Qed.
 Lemma repaired_11 : repaired wit_11.
 Proof. vm_compute. repeat split. Qed.
@@ -97,10 +104,10 @@ Proof. vm_compute. repeat split. Qed.
 
 Lemma constraints_refuted_l :
   refutes 1 wit_1 /\ refutes 2 wit_2 /\ refutes 3 wit_3 /\ refutes 4 wit_4 /\ refutes 10 wit_10 /\
-  refutes 15 wit_15.
+  refutes 15 wit_15 /\ refutes 20 wit_20.
 Proof.
   repeat split; first [apply refuted_1|apply refuted_2|apply refuted_3|apply refuted_4|apply refuted_10|
-    apply refuted_15].
+    apply refuted_15|apply refuted_20].
 Qed.
 
 Lemma former_classes_repaired_l :
